@@ -44,7 +44,22 @@ RULE = (
     "spectra over 8..13 decades and low rank + noise 1e-7..1e-5 with tol between adjacent rank-switch values down to 3e-6; (9) the "
     "call-history cells change one entry of the long-lived data object by item assignment, call on it and change it back -- "
     "before the first solution of P or between the two -- and compare with objects built afresh; the first result must stay "
-    "bit-identical; (10) cp_apr stoptime 0 / 1e-9 (one sweep), LBFGSB maxls 1..3 and maxfun 1, stoptol 2.5 / 1e300, maxiters 1."
+    "bit-identical; (10) cp_apr stoptime 0 / 1e-9 (one sweep), LBFGSB maxls 1..3 and maxfun 1, stoptol 2.5 / 1e300, maxiters 1.  "
+    "Round 4 classes: (13) `reporting` cells for every algorithm: a quiet baseline and two further runs of the same request with the "
+    "reporting interval / verbosity in {0, 1, 2, 3, 1000, -1, numpy.int64 scalars} (cp_apr: printitn x printinneritn, including a quiet "
+    "outer loop with inner reporting; gcp_opt: also the silent iprint / disp settings of LBFGSB) under a logging configuration of the "
+    "process in {disabled, root at WARNING, root at DEBUG with a NullHandler, root at DEBUG with a formatting StreamHandler}; cp_als "
+    "also with the options echoed in the info dictionary given back; (11) `presentation` cells for every algorithm: the favourite "
+    "forms against data held C-ordered / read-only (copy=False) / built from a strided or read-only view / float32 (the array is "
+    "rounded to single precision first, judged with a single-precision bound) / integer dtype, sparse data with int32 / uint8 / "
+    "uint16 / uint64 subscripts, float32 / integer values, read-only arrays, shape as list; the guess over C-ordered / read-only / "
+    "strided arrays, weights omitted, list vs tuple vs ktensor (gcp_opt); rank as numpy int64 / int32 / uint8 / uint16 / uint64 "
+    "scalar, one rank for all modes (tucker_als), mode lists and rank vectors as tuple / range / numpy arrays of those dtypes / lists "
+    "of numpy scalars, iteration limits as numpy ints, hosvd options positionally; option pairs: tucker_als relabelling with the "
+    "'nvecs' and 'random' (same seed) starts, cp_als relabelling with 'nvecs'; (12) the call-history cells make an ill-formed request "
+    "(duplicated / over-long mode order, rank not matching the guess, rank 0, unknown start or algorithm, negated counts) on the "
+    "long-lived objects before the first solution of P or between the two: when it is rejected the objects must be bit for bit what "
+    "they were, and the later solutions are judged as if it had not happened."
 )
 ASSUMPTIONS = [
     "bulk numeric content expanded by np.random.default_rng from Hypothesis-drawn integer seeds",
@@ -62,6 +77,10 @@ ASSUMPTIONS = [
     "search -> division by a ~1e-20 curvature product) and is labelled, not judged",
     "cp_apr pqnr runs that raise the known 'L-BFGS first iterate is bad' assertion (C11 finding) are labelled and not judged",
     "tucker_als problems: feasible rank vectors and noisy data (see C10) so that the leading subspaces are well defined",
+    "float32 holders: the array is rounded to single precision first, so both presentations denote the same array; the model is "
+    "judged with 1e-4 instead of 1e-7 and the fit with 1e-5 in squared form (the norm of the data is a single-precision number)",
+    "LBFGSB iprint >= 0 / disp > 0 are not exercised: scipy's Fortran code then writes to file descriptor 1 of the process",
+    "whether an ill-formed request made inside a call history is rejected is not judged here (C19); only the state it leaves",
 ]
 
 PREDICATES = {"int_square_wraps": C10._int_square_wraps}  # more are added below (they need the data builders)
@@ -370,6 +389,10 @@ def _als_relabel_case(draw, tier):
     c["perm"] = list(draw(st.permutations(range(N))))
     if c["dimorder"] is None and draw(st.booleans()):
         c["dimorder"] = list(draw(st.permutations(range(N))))
+    # option pairs: the 'nvecs' start (computed per mode from the data) with dimorder / optdims.  Dense data only:
+    # sptensor.nvecs refuses all-singleton shapes and k >= n requests, which has nothing to do with relabelling
+    if draw(st.integers(0, 7)) == 0 and c["holder"] == "tensor":
+        c["init"] = "nvecs"
     return c
 
 
@@ -387,7 +410,8 @@ def als_relabel(ctx, case):
     Ap = np.transpose(A, p)
     Xp = H.make_tensor(Ap) if case["holder"] == "tensor" else H.make_sptensor(Ap, int(case["data_seed"]) + 1, case["stored"])
     g = H.build_init(case)
-    gp = H.make_ktensor(np.asarray(g.weights), [np.asarray(g.factor_matrices[p[i]]) for i in range(N)])
+    gp = g if isinstance(g, str) else H.make_ktensor(np.asarray(g.weights), [np.asarray(g.factor_matrices[p[i]]) for i in range(N)])
+    ctx.label("init-" + ("nvecs" if isinstance(g, str) else "given"))
     dimorder = case["dimorder"] if case["dimorder"] is not None else list(range(N))
     casep = dict(case, optdims=None if case["optdims"] is None else [q[m] for m in case["optdims"]])
 
@@ -1074,8 +1098,10 @@ def _tucker_relabel_case(draw, tier):
     c = draw(_tucker_problem(tier))
     N = len(c["shape"])
     c["perm"] = list(draw(st.permutations(range(N))))
+    # (option pairs: the string starts together with a relabelled mode order.  'random' draws one matrix per mode in sweep
+    # order, skipping the first: with the same seed the relabelled request draws the same matrices for the same modes)
     c["init"] = draw(st.sampled_from(["list", "list-orth", "list-eye", "list-zeros", "list-unit", "list-near-orth", "list-near-eye",
-                                      "list-tiny", "list-huge"]))
+                                      "list-tiny", "list-huge", "nvecs", "random", "random"]))
     if c["dimorder"] is None and draw(st.booleans()):
         c["dimorder"] = list(draw(st.permutations(range(N))))
     return c
@@ -1091,7 +1117,8 @@ def tucker_relabel(ctx, case):
     ctx.label("perm-identity" if p == sorted(p) else "perm-nontrivial")
     dimorder = case["dimorder"] if case["dimorder"] is not None else list(range(N))
     g = C10._tucker_init(case)
-    gp = [g[p[i]] for i in range(N)]
+    gp = [g[p[i]] for i in range(N)] if isinstance(g, list) else g
+    ctx.label("init-" + case["init"], "full-mode" if any(r == n for r, n in zip(case["rank"], case["shape"])) else "no-full-mode")
     with ctx.sut("tucker_als"):
         ra, _ = _tucker(_tucker_hold(case, A), case, g)
     with ctx.sut("tucker_als-relabelled"):
@@ -1296,7 +1323,32 @@ def _hist(draw, strat, tier):
     c["minimal"] = draw(st.booleans())  # P leaves every option it can at its default; the calls in between give theirs
     # class 9: between the two solutions of P its data object is changed by item assignment, used for a call, and changed back
     c["edit_seed"] = draw(st.one_of(st.none(), st.integers(0, 10**6), st.integers(0, 10**6)))
+    # class 12: an ill-formed request made on the long-lived objects between the two solutions of P
+    c["reject"] = draw(st.sampled_from([None, "dimorder-duplicate", "rank-mismatch", "init-string", "mode-list-too-long", "rank-zero"]))
+    c["reject_first"] = draw(st.booleans())  # ... or before the first one (the objects are then still untouched by any call)
     return c
+
+
+def _rejected_step(ctx, case, objs, calls, first=False):
+    """class 12: between the two solutions of P an ill-formed request is made with the very same data / guess objects.  When it is
+    rejected (whether it must be is another property's concern) the objects must be bit for bit what they were, and the
+    second solution of P is judged as if the step had not happened."""
+    kind = case.get("reject")
+    if kind is None or kind not in calls:
+        if not first:
+            ctx.label("no-rejected-request-in-between")
+        return
+    if bool(case.get("reject_first")) != first:
+        return
+    before = [H.snapshot(o) for o in objs]
+    try:
+        with H.captured():
+            calls[kind]()
+    except Exception:  # noqa: BLE001
+        ctx.label(("rejected-request-before-the-first-call:" if first else "rejected-request-in-between:") + kind)
+        ctx.check([H.snapshot(o) for o in objs] == before, "operands-unchanged-by-rejected-request", kind)
+    else:
+        ctx.label("ill-formed-request-in-between-was-accepted:" + kind)
 
 
 def _edit_first(case):
@@ -1361,6 +1413,14 @@ def als_history(ctx, case):
         if not _edited_call(ctx, X, A, case, lambda: _als_min(X, case, g), first=True):
             ctx.label("restored-object-differs-not-judged")
             return
+        N_, R_ = len(case["shape"]), int(case["R"])
+        rejected = {
+            "dimorder-duplicate": lambda: ttb.cp_als(X, R_, init=g, maxiters=2, dimorder=[0] * N_),
+            "mode-list-too-long": lambda: ttb.cp_als(X, R_, init=g, maxiters=2, dimorder=list(range(N_ + 1))),
+            "rank-mismatch": lambda: ttb.cp_als(X, R_ + 1, init=g, maxiters=2),
+            "rank-zero": lambda: ttb.cp_als(X, 0, init=g, maxiters=2),
+            "init-string": lambda: ttb.cp_als(X, R_, init="no-such-start", maxiters=2)}
+        _rejected_step(ctx, case, [X, g], rejected, first=True)
         with ctx.sut("cp_als-first"):
             ra = _als_min(X, case, g)
         snap_a = (H.snapshot(ra[0]), H.snapshot(ra[1])) if isinstance(ra, tuple) and len(ra) == 3 else None
@@ -1370,6 +1430,7 @@ def als_history(ctx, case):
                 _als(Xq, q, H.build_init(q), printitn=int(q.get("maxiters", 1)) % 2)
             except Exception:  # noqa: BLE001
                 ctx.label("call-in-between-raised")
+        _rejected_step(ctx, case, [X, g], rejected)
         if not _edited_call(ctx, X, A, case, lambda: _als_min(X, case, g)):
             ctx.label("restored-object-differs-not-judged")
             return
@@ -1402,6 +1463,14 @@ def tucker_history(ctx, case):
     if not _edited_call(ctx, X, A, case, run, first=True):
         ctx.label("restored-object-differs-not-judged")
         return
+    N_ = A.ndim
+    rejected = {
+        "dimorder-duplicate": lambda: ttb.tucker_als(X, list(case["rank"]), init=g, maxiters=2, dimorder=[0] * N_),
+        "mode-list-too-long": lambda: ttb.tucker_als(X, list(case["rank"]), init=g, maxiters=2, dimorder=list(range(N_ + 1))),
+        "rank-mismatch": lambda: ttb.tucker_als(X, [int(r) + 1 for r in case["rank"]], init=g, maxiters=2),
+        "rank-zero": lambda: ttb.tucker_als(X, list(case["rank"]), init=g, maxiters=-1),
+        "init-string": lambda: ttb.tucker_als(X, list(case["rank"]), init="no-such-start", maxiters=2)}
+    _rejected_step(ctx, case, [X, g], rejected, first=True)
     with ctx.sut("tucker_als-first"):
         ra = run()
     for q in case["others"]:
@@ -1410,6 +1479,7 @@ def tucker_history(ctx, case):
         except Exception:  # noqa: BLE001
             ctx.label("call-in-between-raised")
     snap_a = (H.snapshot(ra[0]), H.snapshot(ra[1])) if isinstance(ra, tuple) and len(ra) == 3 else None
+    _rejected_step(ctx, case, [X, g], rejected)
     if not _edited_call(ctx, X, A, case, run):
         ctx.label("restored-object-differs-not-judged")
         return
@@ -1439,6 +1509,14 @@ def hosvd_history(ctx, case):
     if not _edited_call(ctx, X, A, case, run, first=True):
         ctx.label("restored-object-differs-not-judged")
         return
+    N_ = A.ndim
+    rejected = {
+        "dimorder-duplicate": lambda: ttb.hosvd(X, tol, verbosity=0, dimorder=[0] * N_),
+        "mode-list-too-long": lambda: ttb.hosvd(X, tol, verbosity=0, dimorder=list(range(N_ + 1))),
+        "rank-mismatch": lambda: ttb.hosvd(X, tol, verbosity=0, ranks=[1] * (N_ + 1)),
+        "rank-zero": lambda: ttb.hosvd(X, tol, verbosity=0, ranks=[1] * (N_ - 1)),
+        "init-string": lambda: ttb.hosvd(X, tol, verbosity=0, ranks=[int(n) + 1 for n in A.shape])}
+    _rejected_step(ctx, case, [X], rejected, first=True)
     with ctx.sut("hosvd-first"):
         Ta = run()
     for q in case["others"]:
@@ -1448,6 +1526,7 @@ def hosvd_history(ctx, case):
         except Exception:  # noqa: BLE001
             ctx.label("call-in-between-raised")
     snap_a = H.snapshot(Ta)
+    _rejected_step(ctx, case, [X], rejected)
     if not _edited_call(ctx, X, A, case, run):
         ctx.label("restored-object-differs-not-judged")
         return
@@ -1480,6 +1559,14 @@ def _apr_history_body(ctx, case):
         with H.captured():
             return ttb.cp_apr(X, int(case["R"]), algorithm=case["alg"], maxiters=int(case["maxiters"]), init=guess, printitn=0)
 
+    R_ = int(case["R"])
+    rejected = {
+        "dimorder-duplicate": lambda: ttb.cp_apr(X, R_, algorithm="no-such-algorithm", init=g, maxiters=2, printitn=0),
+        "mode-list-too-long": lambda: ttb.cp_apr(-X, R_, algorithm=case["alg"], init=g, maxiters=2, printitn=0),
+        "rank-mismatch": lambda: ttb.cp_apr(X, R_ + 1, algorithm=case["alg"], init=g, maxiters=2, printitn=0),
+        "rank-zero": lambda: ttb.cp_apr(X, 0, algorithm=case["alg"], init=g, maxiters=2, printitn=0),
+        "init-string": lambda: ttb.cp_apr(X, R_, algorithm=case["alg"], init="no-such-start", maxiters=2, printitn=0)}
+    _rejected_step(ctx, case, [X, g], rejected, first=True)
     try:
         try:
             ra = run(g)
@@ -1497,6 +1584,7 @@ def _apr_history_body(ctx, case):
                 _apr(apr_holders(q, Aq)[0 if q["holder"] == "tensor" else 1], q, apr_init(q), printitn=int(q["maxiters"]) % 2)
             except Exception:  # noqa: BLE001
                 ctx.label("call-in-between-raised")
+        _rejected_step(ctx, case, [X, g], rejected)
         if not _edited_call(ctx, X, A, case, lambda: run(apr_init(case)), always=True):
             ctx.label("restored-object-differs-not-judged")
             return
@@ -1524,3 +1612,752 @@ for _alg in ("mu", "pdnr", "pqnr"):
     cell(f"C18/cp_apr-{_alg}/call-history",
          strategy=(lambda alg: lambda tier: st.composite(lambda draw: _hist(draw, _apr_strategy(alg, "same-seed"), tier))())(_alg),
          quick=100, thorough=2500, shards=(4, 16))(_apr_history_body)
+
+
+# --------------------------------------------------------------------------
+# Round 4: class 13 (reporting options, process environment), class 11 (how the caller presents valid arguments),
+# class 12 (state after a rejected request, inside the call histories above)
+# --------------------------------------------------------------------------
+# One generated problem, one baseline call (quiet, logging as core.evaluate leaves it, every argument in the library's own
+# favourite form) and two further calls of the *same request*: either with other reporting settings / another logging
+# configuration of the process (class 13), or with the arguments presented the way ordinary callers do (class 11).  Every
+# further call must return the baseline's model (the relation tolerance of the module), fit and iteration count.
+
+import contextlib  # noqa: E402
+import io  # noqa: E402
+
+LOG_ENVS = ["off", "warning", "debug", "debug", "debug-stream"]
+
+
+@contextlib.contextmanager
+def _log_env(kind):
+    """logging configuration of the process during a call.  'off': what core.evaluate sets (logging disabled up to WARNING,
+    root logger at ERROR); 'warning' / 'debug': nothing disabled, root logger at that level with a NullHandler;
+    'debug-stream': root logger at DEBUG with a StreamHandler writing into a buffer (records are formatted).  Everything is
+    restored afterwards."""
+    root = logging.getLogger()
+    old_level, old_disable, old_handlers = root.level, root.manager.disable, list(root.handlers)
+    try:
+        if kind != "off":
+            root.handlers = [logging.StreamHandler(io.StringIO()) if kind == "debug-stream" else logging.NullHandler()]
+            logging.disable(logging.NOTSET)
+            root.setLevel(logging.WARNING if kind == "warning" else logging.DEBUG)
+        yield
+    finally:
+        root.handlers = old_handlers
+        root.setLevel(old_level)
+        logging.disable(old_disable)
+
+
+def _np_or_int(v):
+    """'np1' -> numpy.int64(1) (a reporting interval taken from an array), numbers unchanged"""
+    if isinstance(v, str) and v.startswith("np"):
+        return np.int64(int(v[2:]))
+    return v
+
+
+def _quiet_spec(v):
+    v = _np_or_int(v)
+    return float(v) <= 0
+
+
+_INTERVALS = [0, 1, 1, 1000, 1000, 2, 3, -1, "np1", "np0", "np1000"]
+
+
+@st.composite
+def _report_variants(draw, inner=False, verbosity=False, k=2):
+    out = []
+    for _ in range(k):
+        v = dict(p=draw(st.sampled_from(_INTERVALS if not verbosity else [0, 1, 1, 3, 6, 11, 1000, 0.5, 2.5, -1, "np1", "np11"])),
+                 log=draw(st.sampled_from(LOG_ENVS)))
+        if inner:
+            v["inner"] = draw(st.sampled_from([0, 1, 1, 1000, 3, "np1"]))
+        if _quiet_spec(v["p"]) and v["log"] == "off" and _quiet_spec(v.get("inner", 0)):
+            v["log"] = "debug"  # (this would be the baseline itself)
+        out.append(v)
+    return out
+
+
+def _report_labels(ctx, v):
+    p = _np_or_int(v["p"])
+    ctx.label("report-" + ("quiet" if float(p) <= 0 else ("every-iteration" if float(p) <= 1 else ("interval-large" if float(p) >= 1000
+                                                                                                    else "interval-2..11"))),
+              "log-" + v["log"], "interval-numpy-scalar" if isinstance(p, np.generic) else "interval-python-number")
+    if "inner" in v:
+        i = _np_or_int(v["inner"])
+        ctx.label("inner-" + ("quiet" if float(i) <= 0 else ("every" if float(i) <= 1 else "large")),
+                  "outer-quiet-inner-reporting" if float(p) <= 0 < float(i) else "outer-inner-other")
+
+
+# ---- argument forms (class 11) ----
+
+INT_FORMS = ["list", "tuple", "np-int64", "np-int32", "np-uint8", "np-uint16", "np-uint64", "np-scalars", "range"]
+RANK_FORMS = ["int", "int64", "int32", "uint8", "uint16", "uint64"]
+DENSE_FORMS = ["c-order", "readonly", "strided", "readonly-view", "float32", "int", "int", "f-order"]
+SPARSE_FORMS = ["subs-int32", "subs-uint8", "subs-uint16", "subs-uint64", "vals-float32", "vals-int", "vals-int", "vals-int", "readonly",
+                "shape-list", "plain"]  # ("vals-int" falls back to "subs-int32" when the data are not integer-valued)
+GUESS_FORMS = ["c-order", "readonly", "weights-omitted", "strided", "f-order"]
+
+
+def _form_ints(v, form):
+    """a list of small non-negative ints (mode list, rank vector) the way callers hold them"""
+    if v is None:
+        return None
+    v = [int(x) for x in v]
+    if form == "tuple":
+        return tuple(v)
+    if form == "np-scalars":
+        return [np.int64(x) for x in v]
+    if form == "range" and v == list(range(len(v))):
+        return range(len(v))
+    if form.startswith("np-"):
+        return np.array(v, dtype=form[3:])
+    return v
+
+
+def _form_int(x, form):
+    return int(x) if form == "int" else np.dtype(form).type(int(x))
+
+
+def _int_dtype_for(A, want):
+    """an integer dtype that holds the (integer-valued) array A: `want` when it fits, else int64; None when A is not
+    integer-valued"""
+    if not (ref.is_intvalued(A) and np.all(np.abs(A) < 2.0**52)):
+        return None
+    for dt in (want, "int64"):
+        if dt in ("float64", None):
+            continue
+        ii = np.iinfo(np.dtype(dt))
+        if float(np.min(A)) >= ii.min and float(np.max(A)) <= ii.max:
+            return dt
+    return None
+
+
+def _present_dense(A, form, int_dtype="int64"):
+    """(tensor holding A presented as `form`, form actually used)"""
+    shape = tuple(int(n) for n in A.shape)
+    X = None
+    try:
+        if form == "int":
+            dt = _int_dtype_for(A, int_dtype)
+            if dt is not None:
+                X = ttb.tensor(np.asfortranarray(A.astype(dt)), shape)
+            else:
+                form = "c-order"
+        if form == "float32":
+            X = ttb.tensor(np.asfortranarray(A.astype(np.float32)), shape)
+        elif form == "c-order":
+            X = ttb.tensor(np.ascontiguousarray(A))
+        elif form == "readonly":
+            a = H.F(A)
+            a.flags.writeable = False
+            X = ttb.tensor(a, shape, copy=False)
+        elif form in ("strided", "readonly-view"):
+            big = np.zeros(tuple(2 * n for n in shape))
+            view = big[tuple(slice(1, None, 2) for _ in shape)]
+            view[...] = A
+            if form == "readonly-view":
+                big.flags.writeable = False
+                view = big[tuple(slice(1, None, 2) for _ in shape)]
+            X = ttb.tensor(view)
+    except Exception:  # noqa: BLE001  (constructors are judged by other properties)
+        X = None
+    if X is not None and isinstance(X, ttb.tensor) and tuple(int(n) for n in X.shape) == shape and np.array_equal(
+            np.asarray(X.data).astype(float), A):
+        return X, form
+    return H.make_tensor(A), "f-order"
+
+
+def _present_sparse(A, form, seed, stored, int_dtype="int64"):
+    shape = tuple(int(n) for n in A.shape)
+    S0 = H.make_sptensor(A, seed, stored)
+    if not np.any(A != 0):
+        return S0, "plain"
+    subs, vals = np.array(S0.subs, copy=True), np.array(S0.vals, copy=True)
+    S = None
+    try:
+        if form == "vals-int":
+            dt = _int_dtype_for(A, int_dtype)
+            if dt is not None:
+                S = ttb.sptensor(subs, vals.astype(dt), shape)
+            else:
+                form = "subs-int32"
+        if form.startswith("subs-"):
+            S = ttb.sptensor(subs.astype(form[5:]), vals, shape)
+        elif form == "vals-float32":
+            S = ttb.sptensor(subs, vals.astype(np.float32), shape)
+        elif form == "readonly":
+            subs.flags.writeable = False
+            vals.flags.writeable = False
+            S = ttb.sptensor(subs, vals, shape, copy=False)
+        elif form == "shape-list":
+            S = ttb.sptensor(subs, vals, list(shape))
+    except Exception:  # noqa: BLE001
+        S = None
+    if S is not None and isinstance(S, ttb.sptensor) and tuple(int(n) for n in S.shape) == shape:
+        try:
+            ok = np.array_equal(ref.den(S), A)
+        except Exception:  # noqa: BLE001
+            ok = False
+        if ok:
+            return S, form
+    return S0, "plain"
+
+
+def _present_matrices(fm, form):
+    out = []
+    for f in fm:
+        f = np.asarray(f)
+        if form == "c-order":
+            out.append(np.ascontiguousarray(f))
+        elif form == "readonly":
+            a = np.array(f, order="F", copy=True)
+            a.flags.writeable = False
+            out.append(a)
+        elif form == "strided":
+            big = np.zeros((2 * f.shape[0], 2 * f.shape[1]), dtype=f.dtype)
+            big[::2, 1::2] = f
+            out.append(big[::2, 1::2])
+        else:
+            out.append(np.array(f, order="F", copy=True))
+    return out
+
+
+def _present_ktensor(g, form):
+    """the guess g (a ktensor with favourite internals) the way a caller may build it"""
+    fm = _present_matrices(g.factor_matrices, form)
+    w = np.array(g.weights, copy=True)
+    if form == "weights-omitted" and np.all(w == 1):
+        return ttb.ktensor(fm)
+    if form == "readonly":
+        w.flags.writeable = False
+        return ttb.ktensor(fm, w, copy=False)
+    return ttb.ktensor(fm, w)
+
+
+def _f32_exact(A):
+    """A rounded to single precision (so that a float32 holder denotes exactly the same array)"""
+    with np.errstate(all="ignore"):
+        B = np.asarray(A, dtype=np.float32).astype(float)
+    return B if np.all(np.isfinite(B)) else A
+
+
+@st.composite
+def _present_variants(draw, k=2):
+    return [dict(dense=draw(st.sampled_from(DENSE_FORMS)), sparse=draw(st.sampled_from(SPARSE_FORMS)),
+                 guess=draw(st.sampled_from(GUESS_FORMS)), ints=draw(st.sampled_from(INT_FORMS)),
+                 rank=draw(st.sampled_from(RANK_FORMS)), count=draw(st.sampled_from(RANK_FORMS[:3])),
+                 positional=draw(st.booleans())) for _ in range(k)]
+
+
+def _uses_f32(case):
+    return any(v["dense"] == "float32" or v["sparse"] == "vals-float32" for v in case["variants"])
+
+
+REL32 = 1e-4  # float32 holders: single-precision rounding 6e-8 with the same amplification allowance as REL has for 1e-16
+
+
+@contextlib.contextmanager
+def _rel_for(used):
+    """the relation tolerance while a run on a float32 holder is judged (the library may compute in the data's precision)"""
+    global REL
+    old = REL
+    REL = REL32 if "float32" in used else old
+    try:
+        yield
+    finally:
+        REL = old
+
+
+def _fit_close32(ctx, fa, fb, clause):
+    """float32 data: the norm of the data is a single-precision number (relative error 6e-8, squared form 2.4e-7)"""
+    ok = H.is_float(fa) and H.is_float(fb) and np.isfinite(fa) and np.isfinite(fb)
+    ctx.check(ok and abs((1 - float(fa)) ** 2 - (1 - float(fb)) ** 2) <= 1e-5, clause, (fa, fb))
+
+
+# ---- CP-ALS ----
+
+
+@st.composite
+def _als_report_case(draw, tier):
+    c = draw(_als_print_case(tier))
+    c["variants"] = draw(_report_variants())
+    return c
+
+
+@cell("C18/cp_als/reporting", strategy=_als_report_case, quick=120, thorough=1000, shards=(4, 16))
+def als_reporting(ctx, case):
+    X, A = H.build_data(case)
+    if H.unfolding_margin(A, int(case["R"])) < 1e-3:
+        ctx.skip("unfolding-rank-margin")
+    _als_labels(ctx, case)
+    st_ = float(case["stoptol"])
+    ctx.label(case["holder"], "stoptol-0" if st_ == 0 else ("stoptol<1e-6" if st_ < 1e-6 else "stoptol>=1e-6"), "init-" + case["init"])
+
+    def rel():
+        with ctx.sut("cp_als-baseline"):
+            ra, ta = _als(X, case, H.build_init(case), printitn=0, stoptol=st_)
+        for i, v in enumerate(case["variants"]):
+            _report_labels(ctx, v)
+            with ctx.sut("cp_als-reporting"):
+                with _log_env(v["log"]):
+                    rb, tb = _als(X, case, H.build_init(case), printitn=_np_or_int(v["p"]), stoptol=st_)
+            ctx.check(("CP_ALS" in tb) == (not _quiet_spec(v["p"])), "reporting-setting-takes-effect", (v["p"], tb[:40]))
+            _als_pair(ctx, ra, rb, case["shape"], int(case["R"]), H.sq(A), tag="reporting")
+        # the options reported in the info dictionary, given back as the docstring shows, are the same request
+        if isinstance(ra, tuple) and len(ra) == 3 and isinstance(ra[2], dict) and isinstance(ra[2].get("params"), dict) \
+                and not (isinstance(case["init"], str) and case["init"] == "random"):
+            with ctx.sut("cp_als-options-from-info-dictionary"):
+                with H.captured():
+                    rc = ttb.cp_als(X, int(case["R"]), init=H.build_init(case), **ra[2]["params"])
+            _als_pair(ctx, ra, rc, case["shape"], int(case["R"]), H.sq(A), tag="reported-options-given-back")
+
+    _als_judged(ctx, case, A, rel)
+
+
+@st.composite
+def _als_present_case(draw, tier):
+    c = draw(_als_dtype_case(tier, draw(st.booleans())))
+    c["variants"] = draw(_present_variants())
+    return c
+
+
+@cell("C18/cp_als/presentation", strategy=_als_present_case, quick=120, thorough=1000, shards=(4, 16))
+def als_presentation(ctx, case):
+    _, A = H.build_data(case)
+    if _uses_f32(case):
+        A = _f32_exact(A)
+    if H.unfolding_margin(A, int(case["R"])) < 1e-3:
+        ctx.skip("unfolding-rank-margin")
+    _als_labels(ctx, case)
+    ctx.label(case["holder"])
+    sparse = case["holder"] == "sptensor"
+    X = H.make_sptensor(A, int(case["data_seed"]), case["stored"]) if sparse else H.make_tensor(A)
+    R, seed = int(case["R"]), int(case["data_seed"])
+
+    def rel():
+        with ctx.sut("cp_als-baseline"):
+            ra, _ = _als(X, case, H.build_init(case))
+        for v in case["variants"]:
+            Xv, used = (_present_sparse(A, v["sparse"], seed, case["stored"], case.get("dtype")) if sparse
+                        else _present_dense(A, v["dense"], case.get("dtype")))
+            g = _present_ktensor(H.build_init(case), v["guess"])
+            kw = dict(stoptol=np.float64(0.0), maxiters=_form_int(case["maxiters"], v["count"]), init=g, printitn=_form_int(0, v["count"]),
+                      fixsigns=case["fixsigns"])
+            if case["dimorder"] is not None:
+                kw["dimorder"] = _form_ints(case["dimorder"], v["ints"])
+            if case.get("optdims") is not None:
+                kw["optdims"] = _form_ints(case["optdims"], v["ints"])
+            ctx.label("data-" + used, "guess-" + v["guess"], "rank-" + v["rank"], "counts-" + v["count"],
+                      "modes-" + (v["ints"] if case["dimorder"] is not None or case.get("optdims") is not None else "default"))
+            ctx.label("options-positional" if v.get("positional") else "options-by-keyword")
+            with ctx.sut("cp_als-presented"):
+                with H.captured():
+                    if v.get("positional"):  # documented order: stoptol, maxiters, dimorder, optdims, init, printitn, fixsigns
+                        rb = ttb.cp_als(Xv, _form_int(R, v["rank"]), kw["stoptol"], kw["maxiters"], kw.get("dimorder"), kw.get("optdims"),
+                                        kw["init"], kw["printitn"], kw["fixsigns"])
+                    else:
+                        rb = ttb.cp_als(Xv, _form_int(R, v["rank"]), **kw)
+            ctx.require(isinstance(rb, tuple) and len(rb) == 3 and isinstance(rb[2], dict) and "fit" in rb[2], "presentation-returns-triple")
+            if "float32" in used:
+                DA, DB = _kt(ctx, ra[0], case["shape"], R, "presentation-first"), _kt(ctx, rb[0], case["shape"], R, "presentation-second")
+                with _rel_for(used):
+                    _close(ctx, DB, DA, "presentation-same-model")
+                _fit_close32(ctx, ra[2]["fit"], rb[2]["fit"], "presentation-same-fit-single-precision-bound")
+            else:
+                _als_pair(ctx, ra, rb, case["shape"], R, H.sq(A), tag="presentation")
+
+    _als_judged(ctx, case, A, rel)
+
+
+# ---- CP-APR ----
+
+
+def _apr_report_strategy(alg):
+    @st.composite
+    def strat(draw, tier):
+        c = draw(_apr_strategy(alg, "printing")(tier))
+        c["variants"] = draw(_report_variants(inner=True))
+        return c
+
+    return strat
+
+
+def _apr_reporting_body(ctx, case):
+    A = apr_counts(case)
+    if not A.any():
+        ctx.skip("all-zero-counts")
+    _apr_labels(ctx, case, A)
+    X = apr_holders(case, A)[0 if case["holder"] == "tensor" else 1]
+    ctx.label(case["holder"])
+    try:
+        ra, ta = _apr_call(ctx, "cp_apr-baseline", X, case, apr_init(case))
+        for v in case["variants"]:
+            _report_labels(ctx, v)
+            p, inner = _np_or_int(v["p"]), _np_or_int(v["inner"])
+
+            def run(g, p=p, inner=inner, v=v):
+                with _log_env(v["log"]):
+                    return _apr(X, case, g, printitn=p, printinneritn=inner)
+
+            try:
+                rb, tb = run(apr_init(case))
+            except AssertionError as e:
+                if "L-BFGS first iterate is bad" in str(e):
+                    raise _KnownPqnr() from None
+                with ctx.sut("cp_apr-reporting"):
+                    raise
+            except Exception:  # noqa: BLE001
+                with ctx.sut("cp_apr-reporting"):
+                    raise
+            if _quiet_spec(v["p"]) and _quiet_spec(v["inner"]):
+                tb_ = "\n".join(ln for ln in tb.splitlines() if "time limit exceeded" not in ln)
+                ctx.check(tb_.strip() == "", "reporting-setting-takes-effect", tb[:40])
+            elif not _quiet_spec(v["p"]):
+                ctx.check(tb.strip() != "", "reporting-setting-takes-effect", tb[:40])
+            _apr_pair(ctx, ra, rb, case, "reporting", lambda w, g, run=run: (run(g) if w else _apr(X, case, g))[0])
+            ctx.check(isinstance(ra[2], dict) and isinstance(rb[2], dict) and ra[2].get("nTotalIters") == rb[2].get("nTotalIters")
+                      or "unstable-instance-not-judged" in ctx.labels, "reporting-same-iteration-count",
+                      (ra[2].get("nTotalIters"), rb[2].get("nTotalIters")) if isinstance(ra[2], dict) and isinstance(rb[2], dict) else None)
+    except _KnownPqnr:
+        ctx.label("pqnr-known-assertion-not-judged")
+        ctx.nt = False
+
+
+def _apr_present_strategy(alg):
+    @st.composite
+    def strat(draw, tier):
+        c = draw(_apr_strategy(alg, "same-seed")(tier))
+        c["variants"] = draw(_present_variants())
+        return c
+
+    return strat
+
+
+def _apr_presentation_body(ctx, case):
+    A = apr_counts(case)
+    if _uses_f32(case):
+        A = _f32_exact(A)
+    if not A.any():
+        ctx.skip("all-zero-counts")
+    _apr_labels(ctx, case, A)
+    sparse = case["holder"] == "sptensor"
+    ctx.label(case["holder"])
+    seed = int(case["data_seed"])
+    X = H.make_sptensor(A, seed, case["stored"]) if sparse else H.make_tensor(A)
+    base = dict(case, sp_state="plain")
+    try:
+        ra, _ = _apr_call(ctx, "cp_apr-baseline", X, base, apr_init(case))
+        for v in case["variants"]:
+            Xv, used = (_present_sparse(A, v["sparse"], seed, case["stored"], case.get("dtype")) if sparse
+                        else _present_dense(A, v["dense"], case.get("dtype")))
+            ctx.label("data-" + used, "guess-" + v["guess"], "rank-" + v["rank"], "counts-" + v["count"])
+
+            def run(g, Xv=Xv, v=v):
+                kw = dict(algorithm=case["alg"], stoptol=float(case["stoptol"]), maxiters=_form_int(case["maxiters"], v["count"]),
+                          maxinneriters=_form_int(case["maxinneriters"], v["count"]), init=_present_ktensor(g, v["guess"]),
+                          printitn=_form_int(0, v["count"]), printinneritn=0)
+                for k in ("kappa", "inexact", "precompinds", "epsDivZero", "kappatol", "mu0", "epsActive", "stoptime"):
+                    if k in case:
+                        kw[k] = case[k] if isinstance(case[k], bool) else np.float64(case[k])
+                if "lbfgsMem" in case:
+                    kw["lbfgsMem"] = _form_int(case["lbfgsMem"], v["count"])
+                with H.captured():
+                    return ttb.cp_apr(Xv, _form_int(case["R"], v["rank"]), **kw)
+
+            try:
+                rb = run(apr_init(case))
+            except AssertionError as e:
+                if "L-BFGS first iterate is bad" in str(e):
+                    raise _KnownPqnr() from None
+                with ctx.sut("cp_apr-presented"):
+                    raise
+            except Exception:  # noqa: BLE001
+                with ctx.sut("cp_apr-presented"):
+                    raise
+            with _rel_for(used):
+                _apr_pair(ctx, ra, rb, case, "presentation", lambda w, g, run=run: run(g) if w else _apr(X, base, g)[0])
+    except _KnownPqnr:
+        ctx.label("pqnr-known-assertion-not-judged")
+        ctx.nt = False
+
+
+for _alg in ("mu", "pdnr", "pqnr"):
+    cell(f"C18/cp_apr-{_alg}/reporting", strategy=_apr_report_strategy(_alg), quick=40, thorough=320, shards=(4, 16))(_apr_reporting_body)
+    cell(f"C18/cp_apr-{_alg}/presentation", strategy=_apr_present_strategy(_alg), quick=30, thorough=240, shards=(4, 16))(_apr_presentation_body)
+
+
+# ---- HOSVD ----
+
+
+@st.composite
+def _hosvd_report_case(draw, tier):
+    c = draw(_hosvd_problem(tier))
+    c["variants"] = draw(_report_variants(verbosity=True))
+    return c
+
+
+@cell("C18/hosvd/reporting", strategy=_hosvd_report_case, quick=120, thorough=1000, shards=(4, 16))
+def hosvd_reporting(ctx, case):
+    A, tol = _hosvd_setup(ctx, case)
+    X = _hosvd_hold(case, A)
+    with ctx.sut("hosvd-baseline"):
+        Ta, _ = _hosvd(X, tol, case, verbosity=0)
+    for v in case["variants"]:
+        _report_labels(ctx, v)
+        with ctx.sut("hosvd-reporting"):
+            with _log_env(v["log"]):
+                Tb, tb = _hosvd(X, tol, case, verbosity=_np_or_int(v["p"]))
+        ctx.check(("HOSVD" in tb) == (not _quiet_spec(v["p"])), "reporting-setting-takes-effect", (v["p"], tb[:40]))
+        _hosvd_pair(ctx, Ta, Tb, A, case, tag="reporting")
+
+
+@st.composite
+def _hosvd_present_case(draw, tier):
+    c = draw(_hosvd_problem(tier))
+    c["variants"] = draw(_present_variants())
+    for v in c["variants"]:
+        v["tol"] = draw(st.sampled_from(["float", "float64", "float64", "longdouble"]))
+        v["positional"] = draw(st.booleans())
+    return c
+
+
+@cell("C18/hosvd/presentation", strategy=_hosvd_present_case, quick=120, thorough=1000, shards=(4, 16))
+def hosvd_presentation(ctx, case):
+    A = C10.hosvd_data(case)
+    if _uses_f32(case):
+        # the same array in single precision: the data are rounded first, the tolerance is then placed for the rounded array
+        A = _f32_exact(A)
+    tol = _mid_tol(A, case)
+    if tol is None:
+        ctx.skip("no-well-separated-switch-values")
+    N = A.ndim
+    ctx.label(f"order{N}", case["kind"], "sequential" if case["sequential"] else "all-at-once",
+              "ranks-given" if case["ranks"] is not None else "ranks-auto", "dimorder-given" if case["dimorder"] is not None else
+              "dimorder-default", "scale-%g" % float(case.get("scale", 1.0)))
+    with ctx.sut("hosvd-baseline"):
+        Ta, _ = _hosvd(H.make_tensor(A), tol, case)
+    for v in case["variants"]:
+        Xv, used = _present_dense(A, v["dense"], case.get("dtype"))
+        ctx.label("data-" + used, "tol-" + v["tol"], "options-positional" if v["positional"] else "options-by-keyword",
+                  "modes-" + (v["ints"] if case["dimorder"] is not None or case["ranks"] is not None else "default"))
+        tolv = float(tol) if v["tol"] == "float" else (np.float64(tol) if v["tol"] == "float64" else np.longdouble(tol))
+        ranks = _form_ints(case["ranks"], v["ints"])
+        dimorder = _form_ints(case["dimorder"], v["ints"])
+        with ctx.sut("hosvd-presented"):
+            with H.captured():
+                if v["positional"]:  # documented order: input_tensor, tol, verbosity, dimorder, sequential, ranks
+                    Tb = ttb.hosvd(Xv, tolv, _form_int(0, v["count"]), dimorder, bool(case["sequential"]), ranks)
+                else:
+                    Tb = ttb.hosvd(Xv, tolv, verbosity=_form_int(0, v["count"]), sequential=np.bool_(case["sequential"]), ranks=ranks,
+                                   dimorder=dimorder)
+        with _rel_for(used):
+            _hosvd_pair(ctx, Ta, Tb, A, case, tag="presentation")
+
+
+# ---- Tucker-ALS ----
+
+
+def _tucker_stop_tie(ctx, X, case, ra, rb, st_):
+    """True when two runs of one and the same presentation may stop at different sweeps (see tucker_printing): ARPACK's
+    unseedable start vector perturbs every run at rounding level and some fit change lies within 1e-6 of stoptol."""
+    its = [r[2].get("iters") if isinstance(r, tuple) and len(r) == 3 and isinstance(r[2], dict) else None for r in (ra, rb)]
+    arpack = any(r < n - 1 for r, n in zip(case["rank"], case["shape"]))
+    if not (st_ > 0 and arpack and its[0] != its[1]):
+        return False
+    fits = []
+    for k in range(1, int(case["maxiters"]) + 1):
+        with ctx.sut("tucker_als-truncated"):
+            rk, _ = _tucker(X, dict(case, maxiters=k), C10._tucker_init(case), printitn=0, stoptol=0.0)
+        f = rk[2].get("fit") if isinstance(rk, tuple) and len(rk) == 3 and isinstance(rk[2], dict) else None
+        fits.append(float(f) if H.is_float(f) else float("nan"))
+    deltas = [abs(fits[k] - (fits[k - 1] if k else 0.0)) for k in range(len(fits))]
+    return any(not np.isfinite(d) or abs(d - st_) <= 1e-6 for d in deltas)
+
+
+@st.composite
+def _tucker_report_case(draw, tier):
+    c = draw(_tucker_print_case(tier))
+    c["variants"] = draw(_report_variants())
+    return c
+
+
+@cell("C18/tucker_als/reporting", strategy=_tucker_report_case, quick=100, thorough=800, shards=(4, 16))
+def tucker_reporting(ctx, case):
+    A = C10.tucker_data(case)
+    _tucker_labels(ctx, case)
+    st_ = float(case["stoptol"])
+    ctx.label("init-" + case["init"], "stoptol-0" if st_ == 0 else ("stoptol<1e-6" if st_ < 1e-6 else "stoptol>=1e-6"))
+    X = _tucker_hold(case, A)
+    with ctx.sut("tucker_als-baseline"):
+        ra, _ = _tucker(X, case, C10._tucker_init(case), printitn=0, stoptol=st_)
+    for v in case["variants"]:
+        _report_labels(ctx, v)
+        with ctx.sut("tucker_als-reporting"):
+            with _log_env(v["log"]):
+                rb, tb = _tucker(X, case, C10._tucker_init(case), printitn=_np_or_int(v["p"]), stoptol=st_)
+        ctx.check(("Iter" in tb) == (not _quiet_spec(v["p"]) and float(_np_or_int(v["p"])) <= 1), "reporting-setting-takes-effect",
+                  (v["p"], tb[:40])) if float(_np_or_int(v["p"])) <= 1 else None
+        if _tucker_stop_tie(ctx, X, case, ra, rb, st_):
+            ctx.label("arpack-stop-threshold-tie-not-judged")
+            ctx.nt = False
+            return
+        _tucker_pair(ctx, ra, rb, A, case, tag="reporting")
+
+
+def _tucker_dimorder_uint64(case):
+    """tucker_als with a given mode order presented as a uint64 array in some variant (tensor.ttm promotes uint64 + int to float64)"""
+    return case.get("dimorder") is not None and any(v.get("ints") == "np-uint64" for v in case.get("variants", []))
+
+
+PREDICATES["tucker_dimorder_uint64"] = _tucker_dimorder_uint64
+
+
+@st.composite
+def _tucker_present_case(draw, tier):
+    c = draw(_tucker_problem(tier))
+    c["init"] = draw(st.sampled_from(["list", "list", "list-orth", "list-eye", "list-zeros", "list-int", "nvecs"]))
+    c["variants"] = draw(_present_variants())
+    if draw(st.integers(0, 3)) == 0:  # one rank for every mode, so that the scalar form is admissible
+        r = min(min(c["shape"]), draw(st.integers(1, 3)))
+        c["rank"] = [r] * len(c["shape"])
+        c["mlrank"] = list(c["rank"])
+    return c
+
+
+@cell("C18/tucker_als/presentation", strategy=_tucker_present_case, quick=100, thorough=800, shards=(4, 16))
+def tucker_presentation(ctx, case):
+    A = C10.tucker_data(case)
+    if _uses_f32(case):
+        A = _f32_exact(A)
+    _tucker_labels(ctx, case)
+    ctx.label("init-" + case["init"])
+    uniform = len(set(case["rank"])) == 1
+    with ctx.sut("tucker_als-baseline"):
+        ra, _ = _tucker(H.make_tensor(A), case, C10._tucker_init(case))
+    for v in case["variants"]:
+        Xv, used = _present_dense(A, v["dense"], "int64")
+        g = C10._tucker_init(case)
+        if isinstance(g, list):
+            g = _present_matrices(g, v["guess"])
+        if uniform and v["rank"] != "int":
+            rank, rform = _form_int(case["rank"][0], v["rank"]), "scalar-" + v["rank"]  # documented: one rank for all modes
+        elif uniform and v["ints"] == "list":
+            rank, rform = int(case["rank"][0]), "scalar-int"
+        else:
+            rank, rform = _form_ints(case["rank"], v["ints"] if v["ints"] != "range" else "tuple"), "vector-" + v["ints"]
+        kw = dict(stoptol=np.float64(0.0), maxiters=_form_int(case["maxiters"], v["count"]), init=g, printitn=_form_int(0, v["count"]))
+        if case["dimorder"] is not None:
+            kw["dimorder"] = _form_ints(case["dimorder"], v["ints"])
+        ctx.label("data-" + used, "guess-" + (v["guess"] if isinstance(g, list) else "string"), "rank-" + rform, "counts-" + v["count"])
+        ctx.label("options-positional" if v.get("positional") else "options-by-keyword")
+        with ctx.sut("tucker_als-presented"):
+            with H.captured():
+                if v.get("positional"):  # documented order: stoptol, maxiters, dimorder, init, printitn
+                    rb = ttb.tucker_als(Xv, rank, kw["stoptol"], kw["maxiters"], kw.get("dimorder"), kw["init"], kw["printitn"])
+                else:
+                    rb = ttb.tucker_als(Xv, rank, **kw)
+        if used == "float32":
+            ctx.require(isinstance(rb, tuple) and len(rb) == 3 and isinstance(rb[2], dict) and "fit" in rb[2], "presentation-returns-triple")
+            DA, _ = _tt(ctx, ra[0], A.ndim, "presentation-first")
+            DB, _ = _tt(ctx, rb[0], A.ndim, "presentation-second")
+            with _rel_for(used):
+                _close(ctx, DB, DA, "presentation-same-model")
+            _fit_close32(ctx, ra[2]["fit"], rb[2]["fit"], "presentation-same-fit-single-precision-bound")
+        else:
+            _tucker_pair(ctx, ra, rb, A, case, tag="presentation")
+
+
+# ---- GCP-OPT with L-BFGS-B ----
+
+# reporting settings of the optimizer itself that keep scipy's Fortran code silent (iprint >= 0 writes to the process's
+# file descriptor 1 from Fortran, which cannot be captured here): all of them are the same request
+LBFGSB_SILENT = [{"iprint": -1}, {}, {"disp": 0}, {"iprint": -1, "disp": 0}, {"iprint": -7}, {"disp": None, "iprint": None}]
+
+
+@st.composite
+def _gcp_report_case(draw, tier):
+    c = draw(_gcp_case(tier))
+    c["prior"] = []
+    c["variants"] = draw(_report_variants())
+    for v in c["variants"]:
+        v["lbfgsb"] = draw(st.integers(0, len(LBFGSB_SILENT) - 1))
+    return c
+
+
+def _gcp_with(X, case, init, printitn, rank=None, silent=None, optkw=None):
+    from pyttb.gcp.handles import Objectives
+    from pyttb.gcp.optimizers import LBFGSB
+
+    kw = {k: v for k, v in case["opt"].items() if v is not None}
+    kw.update(optkw or {})
+    opt = LBFGSB(**(LBFGSB_SILENT[0] if silent is None else silent), **kw)
+    if isinstance(init, str):
+        np.random.seed(case["np_seed"])
+    with H.captured() as buf:
+        res = ttb.gcp_opt(X, int(case["R"]) if rank is None else rank, Objectives[case["objective"]], opt, init=init, printitn=printitn)
+    return res, buf.getvalue()
+
+
+@cell("C18/gcp_opt-lbfgsb/reporting", strategy=_gcp_report_case, quick=80, thorough=640, shards=(4, 16))
+def gcp_reporting(ctx, case):
+    A = gcp_data(case)
+    _gcp_labels(ctx, case)
+    ctx.label("init-" + case["init"])
+    with ctx.sut("gcp_opt-baseline"):
+        ra, _ = _gcp_with(gcp_tensor(case, A), case, _gcp_init(case), 0)
+    for v in case["variants"]:
+        _report_labels(ctx, v)
+        sil = LBFGSB_SILENT[int(v["lbfgsb"])]
+        ctx.label("lbfgsb-" + (",".join(f"{k}={sil[k]}" for k in sorted(sil)) or "reporting-options-omitted"))
+        with ctx.sut("gcp_opt-reporting"):
+            with _log_env(v["log"]):
+                rb, _ = _gcp_with(gcp_tensor(case, A), case, _gcp_init(case), _np_or_int(v["p"]), silent=sil)
+        _gcp_pair(ctx, ra, rb, case, "reporting")
+        ctx.check(isinstance(ra[1], ttb.ktensor) and isinstance(rb[1], ttb.ktensor) and H.snapshot(ra[1]) == H.snapshot(rb[1]),
+                  "reporting-same-starting-guess")
+        ia, ib = (r[2].get("nit") if isinstance(r[2], dict) else None for r in (ra, rb))
+        ctx.check(ia == ib, "reporting-same-iteration-count", (ia, ib))
+
+
+def _gcp_readonly_ktensor_guess(case):
+    """gcp_opt with the guess presented as a ktensor that references read-only arrays (gcp_opt normalises the caller's object)"""
+    return any(v.get("init_form") == "ktensor" and v.get("guess") == "readonly" for v in case.get("variants", []))
+
+
+PREDICATES["gcp_readonly_ktensor_guess"] = _gcp_readonly_ktensor_guess
+
+
+@st.composite
+def _gcp_present_case(draw, tier):
+    c = draw(_gcp_case(tier))
+    c["prior"] = []
+    c["init"] = "ktensor"
+    c["variants"] = draw(_present_variants())
+    for v in c["variants"]:
+        v["init_form"] = draw(st.sampled_from(["ktensor", "list", "tuple", "ktensor"]))
+    return c
+
+
+@cell("C18/gcp_opt-lbfgsb/presentation", strategy=_gcp_present_case, quick=80, thorough=640, shards=(4, 16))
+def gcp_presentation(ctx, case):
+    A = gcp_data(case)
+    if _uses_f32(case):
+        A = _f32_exact(A)
+    _gcp_labels(ctx, case)
+    fm = [np.array(f, copy=True) for f in _gcp_init(dict(case, init="list"))]
+    with ctx.sut("gcp_opt-baseline"):
+        ra, _ = _gcp_with(H.make_tensor(A), case, ttb.ktensor([H.F(f) for f in fm], np.ones(int(case["R"]))), 0)
+    for v in case["variants"]:
+        Xv, used = _present_dense(A, v["dense"], case.get("dtype"))
+        mats = _present_matrices(fm, v["guess"])
+        if v["init_form"] == "ktensor":
+            g = _present_ktensor(ttb.ktensor([H.F(f) for f in fm], np.ones(int(case["R"]))), v["guess"])
+        else:
+            g = mats if v["init_form"] == "list" else tuple(mats)
+        ctx.label("data-" + used, "guess-" + v["init_form"] + "-" + v["guess"], "rank-" + v["rank"], "counts-" + v["count"])
+        optkw = {k: _form_int(case["opt"][k], v["count"]) for k in ("maxiter", "m", "maxfun", "maxls") if case["opt"].get(k) is not None}
+        with ctx.sut("gcp_opt-presented"):
+            rb, _ = _gcp_with(Xv, case, g, _form_int(0, v["count"]), rank=_form_int(case["R"], v["rank"]), optkw=optkw)
+        with _rel_for(used):
+            _gcp_pair(ctx, ra, rb, case, "presentation")
